@@ -1,95 +1,2 @@
-(* GENERATED by tools/py2v/gen_madx.py from xdeps/madxutils.py and xdeps/refs.py - do not edit *)
-From Coq Require Import String List.
-From XD Require Import model.MadxSyn.
-Import ListNotations.
-Open Scope string_scope.
-
-Definition madx_grammar : MadxSyn.grammar :=
-  mk_grammar
-   [mk_grule "start" true
-      [mk_galt [GRule "sum"] None;
-       mk_galt [GTerm "NAME"; GLit "="; GRule "sum"] (Some "assign_var")];
-    mk_grule "sum" true
-      [mk_galt [GRule "product"] None;
-       mk_galt [GRule "sum"; GLit "+"; GRule "product"] (Some "add");
-       mk_galt [GRule "sum"; GLit "-"; GRule "product"] (Some "sub")];
-    mk_grule "product" true
-      [mk_galt [GRule "power"] None;
-       mk_galt [GRule "product"; GLit "*"; GRule "power"] (Some "mul");
-       mk_galt [GRule "product"; GLit "/"; GRule "power"] (Some "div")];
-    mk_grule "power" true
-      [mk_galt [GRule "atom"] None;
-       mk_galt [GRule "power"; GLit "^"; GRule "atom"] (Some "pow");
-       mk_galt [GRule "power"; GLit "**"; GRule "atom"] (Some "pow")];
-    mk_grule "atom" true
-      [mk_galt [GTerm "NUMBER"] (Some "number");
-       mk_galt [GLit "-"; GRule "atom"] (Some "neg");
-       mk_galt [GLit "+"; GRule "atom"] (Some "pos");
-       mk_galt [GTerm "NAME"] (Some "var");
-       mk_galt [GTerm "NAME"; GLit "->"; GTerm "NAME"] (Some "getitem");
-       mk_galt [GTerm "NAME"; GLit "("; GRule "sum"; GStar [GLit ","; GRule "sum"]; GLit ")"] (Some "call");
-       mk_galt [GLit "("; GRule "sum"; GLit ")"] None]]
-   [mk_gterm "NAME" "[A-Za-z_\.][A-Za-z0-9_\.%]*"]
-   ["common.NUMBER"; "common.WS_INLINE"] ["WS_INLINE"].
-
-(* the same text after grammar.replace(...) of attribute mode *)
-Definition madx_grammar_attr : MadxSyn.grammar :=
-  mk_grammar
-   [mk_grule "start" true
-      [mk_galt [GRule "sum"] None;
-       mk_galt [GTerm "NAME"; GLit "="; GRule "sum"] (Some "assign_var")];
-    mk_grule "sum" true
-      [mk_galt [GRule "product"] None;
-       mk_galt [GRule "sum"; GLit "+"; GRule "product"] (Some "add");
-       mk_galt [GRule "sum"; GLit "-"; GRule "product"] (Some "sub")];
-    mk_grule "product" true
-      [mk_galt [GRule "power"] None;
-       mk_galt [GRule "product"; GLit "*"; GRule "power"] (Some "mul");
-       mk_galt [GRule "product"; GLit "/"; GRule "power"] (Some "div")];
-    mk_grule "power" true
-      [mk_galt [GRule "atom"] None;
-       mk_galt [GRule "power"; GLit "^"; GRule "atom"] (Some "pow");
-       mk_galt [GRule "power"; GLit "**"; GRule "atom"] (Some "pow")];
-    mk_grule "atom" true
-      [mk_galt [GTerm "NUMBER"] (Some "number");
-       mk_galt [GLit "-"; GRule "atom"] (Some "neg");
-       mk_galt [GLit "+"; GRule "atom"] (Some "pos");
-       mk_galt [GTerm "NAME"] (Some "var");
-       mk_galt [GTerm "NAME"; GLit "->"; GTerm "NAME"] (Some "getattr");
-       mk_galt [GTerm "NAME"; GLit "("; GRule "sum"; GStar [GLit ","; GRule "sum"]; GLit ")"] (Some "call");
-       mk_galt [GLit "("; GRule "sum"; GLit ")"] None]]
-   [mk_gterm "NAME" "[A-Za-z_\.][A-Za-z0-9_\.%]*"]
-   ["common.NUMBER"; "common.WS_INLINE"] ["WS_INLINE"].
-
-Definition callbacks : list (string * callback) :=
-  [("add", CbOperator "add");
-   ("sub", CbOperator "sub");
-   ("mul", CbOperator "mul");
-   ("div", CbOperator "truediv");
-   ("neg", CbOperator "neg");
-   ("pos", CbOperator "pos");
-   ("pow", CbOperator "pow");
-   ("number", CbBuiltin "float");
-   ("call", CbMethod 1 true (CCallStar (CGetAttr (CSelf "functions") (CParam 0))));
-   ("getitem", CbMethod 2 false (CGetItem (CGetItem (CSelf "elements") (CValue (CParam 0))) (CValue (CParam 1))));
-   ("getattr", CbMethod 2 false (CGetAttr (CGetItem (CSelf "elements") (CValue (CParam 0))) (CValue (CParam 1))));
-   ("var", CbMethod 1 false (CTryKey (CGetItem (CSelf "variables") (CValue (CParam 0)))))].
-
-Definition eval_cfg : madx_eval_cfg :=
-  mk_cfg true [("variables", 0); ("functions", 1); ("elements", 2)] "lalr" true ("getitem", "getattr") ("get", "attr").
-
-Definition env_cfg : madx_env_cfg :=
-  mk_envcfg [("_vref", "_variables", "v"); ("_eref", "_elements", "e"); ("_fref", "math", "f")] ["_vref"; "_fref"; "_eref"] ["_variables"; "math"; "_elements"].
-
-Definition ref_tabs : MadxSyn.ref_tables :=
-  mk_reftab
-   [("__add__", ("AddExpr", false)); ("__radd__", ("AddExpr", true)); ("__sub__", ("SubExpr", false)); ("__rsub__", ("SubExpr", true)); ("__mul__", ("MulExpr", false)); ("__rmul__", ("MulExpr", true)); ("__truediv__", ("TruedivExpr", false)); ("__rtruediv__", ("TruedivExpr", true)); ("__pow__", ("PowExpr", false)); ("__rpow__", ("PowExpr", true))]
-   [("__neg__", "NegExpr"); ("__pos__", "PosExpr")]
-   [("__getitem__", ("ItemRef", false)); ("__getattr__", ("AttrRef", true)); ("__call__", ("CallRef", false))]
-   [("AddExpr", ("Add", false)); ("SubExpr", ("Sub", false)); ("MulExpr", ("Mult", false)); ("TruedivExpr", ("Div", true)); ("PowExpr", ("Pow", false))]
-   [("NegExpr", "USub"); ("PosExpr", "UAdd")]
-   [("ItemRef", "getitem"); ("AttrRef", "getattr"); ("CallRef", "call")]
-   true true.
-
-Definition special_methods : list string :=
-  ["__array__"; "__array_finalize__"; "__array_function__"; "__array_interface__"; "__array_prepare__"; "__array_priority__"; "__array_struct__"; "__array_ufunc__"; "__array_wrap__"; "__copy__"; "__deepcopy__"; "__dict__"; "__getstate__"; "__iter__"; "__reduce_cython__"; "__setstate__"; "__wrapped__"].
+(* tools/py2v translator FAILED on the current source: CallRef._get_value shape (line 1175) *)
+Definition translator_failed_no_tables : bool := true.
